@@ -175,7 +175,7 @@ class Taxonomy:
             if is_literal(label_pattern):
                 self.literal_labels[LabelName(label_pattern)].append(TaxonName(taxon_pattern))
             else:
-                self.compiled_labels.append((regex.compile(f"{label_pattern}$"), taxon_pattern))
+                self.compiled_labels.append((regex.compile(f"(?:{label_pattern})$"), taxon_pattern))
                 # note: "$" is necessary: regex.fullmatch() has no regex.fullsub() counterpart
 
     @lru_cache(maxsize=None)
